@@ -337,6 +337,59 @@ impl<'a> Ev<'a> {
                 }
             }
         }
+        // ---------------------------------------------------------------- syn: filtered views of `Generics::params`
+        if matches!(name, "type_params" | "const_params" | "lifetimes" | "type_params_mut" | "const_params_mut") && args.is_empty() {
+            if let Val::Sym { ty, path } = rv {
+                if ty.name() == Some("Generics") {
+                    let (var, ety) = match name { "type_params" | "type_params_mut" => ("Type", "TypeParam"), "const_params" | "const_params_mut" => ("Const", "ConstParam"), _ => ("Lifetime", "LifetimeParam") };
+                    let coll = format!("{path}.params");
+                    let mut r = Vec::new();
+                    for (s, b) in self.decide_variant(st, &format!("{coll}[*]"), &Ty::Named("GenericParam".into(), vec![]), var) {
+                        let items = if b { vec![Val::Sym { ty: Ty::Named(ety.into(), vec![]), path: format!("{coll}[*].{var}") }] } else { vec![] };
+                        r.push((s, Flow::Val(Val::Rep { coll: coll.clone(), items })));
+                    }
+                    return Some(r);
+                }
+            }
+        }
+        // `a.chain(b)` where one side is what is left of a symbolic collection: the concatenation, side by side
+        if name == "chain" && args.len() == 1 {
+            let parts = |v: &Val| -> Option<Vec<Val>> { match v { Val::Rep { .. } => Some(vec![v.clone()]), Val::List(l) if l.iter().any(|x| matches!(x, Val::Rep { .. })) => Some(l.clone()), _ => self.seq_of(v) } };
+            if matches!(rv, Val::Rep { .. } | Val::List(_)) || matches!(&args[0], Val::Rep { .. }) {
+                if let (Some(mut a), Some(b)) = (parts(rv), parts(&args[0])) {
+                    if a.iter().chain(b.iter()).any(|x| matches!(x, Val::Rep { .. })) { a.extend(b); return Some(vec![(st, Flow::Val(Val::List(a)))]); }
+                }
+            }
+        }
+        // adaptors over a list of several parts (concrete elements and summarised parts side by side): part by part
+        if matches!(name, "filter" | "filter_map" | "map") && a0.map(Self::is_callable).unwrap_or(false) {
+            if let Val::List(l) = rv {
+                if l.len() > 1 && l.iter().any(|x| matches!(x, Val::Rep { .. })) {
+                    let mut pending: Vec<(St, Vec<Val>)> = vec![(st, vec![])];
+                    let mut done: Outs = Vec::new();
+                    for part in l {
+                        let mut next = Vec::new();
+                        for (s, acc) in pending {
+                            let outs = match part { Val::Rep { coll, items } => self.sym_elem_op(s, name, a0?, coll, items.clone(), sp), other => self.lib_method(s, &Val::Array(vec![other.clone()]), name, args, sp)? };
+                            for (s2, fl) in outs { match fl { Flow::Val(Val::Array(x)) | Flow::Val(Val::List(x)) => { let mut a2 = acc.clone(); a2.extend(x); next.push((s2, a2)); } Flow::Val(v) => { let mut a2 = acc.clone(); a2.push(v); next.push((s2, a2)); } other => done.push((s2, other)) } }
+                        }
+                        pending = next;
+                    }
+                    for (s, acc) in pending { done.push((s, Flow::Val(Val::List(acc)))); }
+                    return Some(done);
+                }
+            }
+        }
+        // ---------------------------------------------------------------- first / last of a symbolic collection
+        if matches!(name, "first" | "last" | "next") && args.is_empty() {
+            if let Val::Sym { ty, path } = rv {
+                if !matches!(ty.name(), Some("Option") | Some("Result")) {
+                    if let Some((_, Val::Sym { ty: ety, .. })) = self.sym_iter(rv) {
+                        return Some(vec![(st, Flow::Val(Val::Sym { ty: Ty::Named("Option".into(), vec![ety]), path: format!("{path}.{name}") }))]);
+                    }
+                }
+            }
+        }
         // ---------------------------------------------------------------- one symbolic element
         if matches!(name, "filter" | "filter_map" | "map" | "flat_map") && a0.map(Self::is_callable).unwrap_or(false) {
             // over a symbolic collection
